@@ -248,7 +248,110 @@ pub fn case(t: &mut Tape, scratch: &Scratch, bins: &Bins) -> CaseResult {
     })
 }
 
+/// call-history independence: the macro flavour (`parse_locales(false, ..)`) and the build-script flavour
+/// (`parse_locales(true, ..)`) of the loader are called alternately on one thread; the first and the third call
+/// must give the same outcome, and so must the second and the fourth. On a harness build whose formatter /
+/// plural features are off the two flavours legitimately differ (error vs. Ok), which is what makes state that
+/// leaks from one call into the next visible.
+fn interleave_case(t: &mut Tape, scratch: &Scratch) -> CaseResult {
+    let cfg = GenCfg {
+        locales: (1, 3),
+        keys: (2, 6),
+        formatters: true,
+        p_formatter: 40,
+        fmt_no_zoned_time: true,
+        w_kinds: [2, 6, 1, 1, 2, 1, 2],
+        ..GenCfg::default()
+    };
+    let style_seed = t.u64();
+    let p = {
+        let mut g = vcommon::gen::Gen::new(t, cfg);
+        g.project()
+    };
+    let dir = scratch.0.join("il");
+    let style = Style {
+        format: Format::Json,
+        seed: style_seed,
+        escapes: 1,
+    };
+    ser::write_project_with(&p, &dir, &style, &ser::manifest_text(&p, true), &|_, _| 0).map_err(|e| fail("harness-io", json!({"e": e.to_string()})))?;
+    let outcome = |skip: bool| -> String {
+        let d = dir.clone();
+        match std::panic::catch_unwind(move || leptos_i18n_parser::parse_locales::parse_locales(skip, Some(d))) {
+            Ok(Ok((bk, warnings, tracked))) => format!("OK {}", eval::dump_loaded(&eval::Loaded { bk, warnings: warnings.into_inner(), tracked })),
+            Ok(Err(e)) => format!("ERR {e}"),
+            Err(pn) => format!("PANIC {}", eval::panic_message(pn)),
+        }
+    };
+    let a = outcome(false);
+    let b = outcome(true);
+    let c = outcome(false);
+    let d = outcome(true);
+    let pj = ser::project_to_json(&p);
+    // what each flavour must say, whatever ran before: the build flavour accepts the (valid) project; the macro flavour
+    // accepts it unless it uses a plural / formatter family whose feature is off in this harness build
+    let sem = vcommon::sem::Sem::new(&p);
+    let valid = vcommon::sem::expected_errors(&p, &sem).is_empty();
+    let needed = vcommon::sem::needed_icu_options(&p, &sem);
+    let enabled = |family: &str| match family {
+        "plurals" => cfg!(feature = "plurals"),
+        "number" => cfg!(feature = "format_nums"),
+        "datetime" => cfg!(feature = "format_datetime"),
+        "list" => cfg!(feature = "format_list"),
+        "currency" => cfg!(feature = "format_currency"),
+        _ => true,
+    };
+    let macro_must_reject = needed.iter().any(|f| !enabled(f));
+    if valid {
+        for (x, which, must_be_ok) in [(&a, "call 1: parse_locales(false)", !macro_must_reject), (&b, "call 2: parse_locales(true)", true), (&c, "call 3: parse_locales(false)", !macro_must_reject), (&d, "call 4: parse_locales(true)", true)] {
+            let is_ok = x.starts_with("OK ");
+            if is_ok != must_be_ok {
+                return Err(fail(
+                    "call-history-dependence",
+                    json!({"which": which, "expected": if must_be_ok { "Ok (the project is valid for this flavour)" } else { "an error: the project uses a plural / formatter family whose cargo feature is off" },
+                           "actual": x.chars().take(300).collect::<String>(), "families_needed": needed, "sequence": ["parse_locales(false)", "parse_locales(true)", "parse_locales(false)", "parse_locales(true)"], "project": pj}),
+                ));
+            }
+        }
+    }
+    for (x, y, which) in [(&a, &c, "macro flavour (skip_icu_cfg = false): call 1 vs call 3"), (&b, &d, "build flavour (skip_icu_cfg = true): call 2 vs call 4")] {
+        if x != y {
+            return Err(fail(
+                "call-history-dependence",
+                json!({"which": which, "first_difference": first_diff(x, y), "sequence": ["parse_locales(false)", "parse_locales(true)", "parse_locales(false)", "parse_locales(true)"], "project": pj}),
+            ));
+        }
+    }
+    let differs = a != b;
+    Ok(CaseInfo {
+        hash: hash_str(&format!("il{pj}")),
+        nontrivial: differs,
+        classes: vec![if differs { "interleave: the two flavours give different outcomes (features off)".to_string() } else { "interleave: the two flavours agree".to_string() }],
+        sample: None,
+        observations: 4,
+    })
+}
+
 pub fn run(mut ctx: Ctx) -> ! {
+    if std::env::var("VERIF_C10_PART").as_deref() == Ok("interleave") {
+        // the reduced-feature harness build runs only this part
+        let scratch = Scratch::new("c10il");
+        if let Some(path) = ctx.replay.clone() {
+            ctx.replay_tape("l1-interleave", &path, |t| interleave_case(t, &scratch));
+        } else {
+            let cases = ctx.tier.scale(600, 20000);
+            ctx.run_tapes("l1-interleave", cases, 1200, |t| interleave_case(t, &scratch));
+        }
+        drop(scratch);
+        ctx.finish(
+            "call-history independence on a harness build WITHOUT the plural / formatter features: generated projects with formatters and plurals are \
+             loaded four times on one thread, alternating the macro flavour parse_locales(false, ..) (rejects what the features do not allow) and the \
+             build-script flavour parse_locales(true, ..) (accepts it); call 1 == call 3 and call 2 == call 4 (keys, warnings, or the error text). \
+             non-trivial = project on which the two flavours differ; distinct = project hash",
+            &[],
+            5,
+        )
+    }
     let scratch = Scratch::new("c10");
     let me = std::env::current_exe().unwrap_or_default();
     let dirp = me.parent().map(|p| p.to_path_buf()).unwrap_or_default();
@@ -264,11 +367,17 @@ pub fn run(mut ctx: Ctx) -> ! {
         }
     }
     if let Some(path) = ctx.replay.clone() {
-        ctx.replay_tape("l1", &path, |t| case(t, &scratch, &bins));
+        if vcommon::ctx::Ctx::replay_engine(&path).as_deref() == Some("l1-interleave") {
+            ctx.replay_tape("l1-interleave", &path, |t| interleave_case(t, &scratch));
+        } else {
+            ctx.replay_tape("l1", &path, |t| case(t, &scratch, &bins));
+        }
     } else {
         ctx.shrink_iters = 300;
         let cases = ctx.tier.scale(700, 20000);
         ctx.run_tapes("l1", cases, 2000, |t| case(t, &scratch, &bins));
+        let cases = ctx.tier.scale(200, 5000);
+        ctx.run_tapes("l1-interleave", cases, 1200, |t| interleave_case(t, &scratch));
     }
     drop(scratch);
     ctx.finish(
